@@ -3,8 +3,11 @@ C17  Tokens tile the source and re-lex to themselves.
 Theorems over the mirror model Model/Lex (tables regenerated from lexer/mod.rs into Gen/Lex, Gen/Unicode).
 -/
 import PrqlModel.Model.Lex
+import PrqlModel.Lemmas.Lex
 namespace Props.C17
-open Gen.Lex Model.Lex
+open Gen.Lex Model.Lex Lemmas.Lex
+
+deriving instance DecidableEq for Except
 
 /-- the hand-written `Model.Lex.token` / `literal` try the alternatives in the order the source lists them
 (these are checked against the regenerated table: a reordering in lexer/mod.rs breaks this proof) -/
@@ -25,5 +28,85 @@ theorem reject_has_errors (src : Src) :
   cases h : lex src with
   | ok toks => exact .inl ⟨toks, rfl, rfl⟩
   | error e => exact .inr ⟨e, rfl, rfl, by simp [LexErrors.toList]⟩
+
+
+/-- Termination: the repetitions of the model run on fuel `length + 1`; it is never exhausted and any larger amount
+gives the same result (each item parser consumes at least one character). -/
+theorem lex_fuel_suffices (s : Src) :
+    (repeatF lexToken (s.length + 1) s).isSome ∧ (repeatF lineWrapItem (s.length + 1) s).isSome ∧
+    (∀ q n e, (repeatF (contentChar q n e) (s.length + 1) s).isSome) ∧
+    (∀ m, s.length < m → repeatF lexToken m s = repeatF lexToken (s.length + 1) s) :=
+  ⟨repeatF_isSome _ lexToken_lt _ _ (by omega),
+   repeatF_isSome _ lineWrapItem_lt _ _ (by omega),
+   fun _ _ _ => repeatF_isSome _ (fun _ _ _ h => (contentChar_sfx h).lt) _ _ (by omega),
+   fun m hm => repeatF_fuel _ lexToken_lt _ _ _ hm (by omega)⟩
+
+/-- the `fuel` error of the model is unreachable -/
+theorem lex_error_is_unexpected (src : Src) (e : LexErrors) (h : lex src = .error e) :
+    ∃ pos, e = ⟨.unexpected pos, []⟩ := by
+  unfold lex lexRaw at h
+  have hs := (lex_fuel_suffices src).1
+  split at h
+  · cases h
+  · next e' he =>
+    split at he
+    · next hn => simp [hn] at hs
+    · split at he
+      · cases he
+      · simp at he h; subst he; subst h; exact ⟨_, rfl⟩
+
+/-- the raw tiling behind T1/T2: an accepted source is whitespace/token-text pairs followed by whitespace -/
+theorem lexRaw_tiles (src : Src) (ts : List RawTok) (h : lexRaw src = .ok ts) :
+    ∃ rest, Tiles src ts rest ∧ ∀ c ∈ rest, isInlineWs c = true := by
+  unfold lexRaw at h
+  split at h
+  · cases h
+  · next ts' rest hr =>
+    split at h
+    · next hws =>
+      simp at h; subst h
+      exact ⟨rest, repeatF_tiles _ _ _ _ hr, dropWhile_nil_all hws⟩
+    · cases h
+
+theorem lex_ok (src : Src) (toks : List Token) (h : lex src = .ok toks) :
+    ∃ ts, lexRaw src = .ok ts ∧ toks = ⟨.start, 0, 0⟩ :: ts.map (mkToken (utf8Len src)) := by
+  unfold lex at h
+  split at h
+  · next ts hts => simp at h; exact ⟨ts, hts, h.symm⟩
+  · cases h
+
+/-- T1: for every accepted source the first token is `Start` at 0..0; every span lies within the source, on character
+boundaries; every token but `Start` is non-empty; tokens are ordered and do not overlap (each ends before any later one
+starts). -/
+theorem tokens_tile (src : Src) (toks : List Token) (h : lex src = .ok toks) :
+    ∃ rest, toks = ⟨.start, 0, 0⟩ :: rest ∧
+      (∀ t ∈ toks, t.start ≤ t.stop ∧ t.stop ≤ utf8Len src ∧ IsBoundary src t.start ∧ IsBoundary src t.stop) ∧
+      (∀ t ∈ rest, t.start < t.stop) ∧
+      toks.Pairwise (fun a b => a.stop ≤ b.start) := by
+  obtain ⟨ts, hraw, rfl⟩ := lex_ok src toks h
+  obtain ⟨rest, ht, _⟩ := lexRaw_tiles src ts hraw
+  obtain ⟨h1, h2, _⟩ := tiles_numeric src ht [] rfl
+  refine ⟨_, rfl, ?_, fun t ht => (h1 t ht).2.1, ?_⟩
+  · intro t htm
+    simp only [List.mem_cons] at htm
+    rcases htm with rfl | htm
+    · exact ⟨Nat.le_refl _, Nat.zero_le _, ⟨0, by simp, by simp [utf8Len]⟩, ⟨0, by simp, by simp [utf8Len]⟩⟩
+    · obtain ⟨_, a, b, c, d, _⟩ := h1 t htm; exact ⟨Nat.le_of_lt a, b, c, d⟩
+  · simp only [List.pairwise_cons]
+    exact ⟨fun t _ => Nat.zero_le _, h2⟩
+
+example : lex ['a', ' ', 'é', '.', '.', '1'] =
+    .ok [⟨.start, 0, 0⟩, ⟨.ident ['a'], 0, 1⟩, ⟨.ident ['é'], 2, 4⟩, ⟨.range true true, 4, 6⟩, ⟨.literal (.integer 1), 6, 7⟩] := by
+  decide
+
+/-- T2: in an accepted source the text before the first token, between consecutive tokens and after the last token is
+inline whitespace only.  (Range tokens own the whitespace on both sides of `..` and line-wrap tokens everything from the
+newline to the backslash: that text is inside their span, see `range_owns_whitespace`.) -/
+theorem gaps_are_whitespace (src : Src) (toks : List Token) (h : lex src = .ok toks) : GapsWs src 0 toks := by
+  obtain ⟨ts, hraw, rfl⟩ := lex_ok src toks h
+  obtain ⟨rest, ht, hrest⟩ := lexRaw_tiles src ts hraw
+  obtain ⟨_, _, h3⟩ := tiles_numeric src ht [] rfl
+  refine ⟨?_, h3 hrest⟩
+  simp [byteSlice, takeBytes]
 
 end Props.C17
